@@ -323,6 +323,11 @@ func cmdPairs(args []string) {
 				if i%4 == 0 { // structured: distinct registers, boundary displacement
 					dd = CatInit(tbl, op, i, *seed, false)
 				}
+				if i%4 == 1 { // index register halves at the byte boundaries (carries between the halves)
+					bv := []int{0x00, 0xff, 0x7f, 0x80, 0x0f, 0x10, 0x01, 0xfe}
+					dd.R[16], dd.R[17] = bv[r.Intn(8)], bv[(i/4)%8]
+					dd.R[18], dd.R[19] = bv[r.Intn(8)], bv[(i/4+3)%8]
+				}
 				EmitPair(dd, w)
 			}
 		}
